@@ -112,14 +112,70 @@ def scenarios(tier):
     return S
 
 
+# ---------------------------------------------------------------- the Boss reorder buffer in front of the Dilator (stacked W1+W3)
+def stacked_scenarios(tier):
+    from zope.interface import implementer
+    from wormhole import _interfaces
+    from .w1common import CODE, mk as mk1
+
+    @implementer(_interfaces.ISend)
+    class SendTap:
+        def __init__(self, inner, log):
+            self.inner, self.log = inner, log
+
+        def send(self, phase, plaintext):
+            if phase.startswith("dilate-"):
+                self.log.append(bytes(plaintext))
+            return self.inner.send(phase, plaintext)
+
+    def post(w):
+        w.dil_sent = [[], []]
+        w.dil_rx = [[], []]
+        for c in w.clients:
+            d = c.boss._D
+            d._S = SendTap(d._S, w.dil_sent[c.ci])
+            orig = d.received_dilate
+
+            def rx(plaintext, orig=orig, ci=c.ci):
+                w.dil_rx[ci].append(bytes(plaintext))
+                return orig(plaintext)
+            d.received_dilate = rx
+
+    def mon_order(w):
+        for ci in (0, 1):
+            got, sent = w.dil_rx[ci], w.dil_sent[1 - ci]
+            if got != sent[:len(got)]:
+                w.flag("dilate-order", "c%d" % ci, "client %d's Dilator received dilate messages %r, the peer sent %r" % (
+                    ci, [g[:40] for g in got], [x[:40] for x in sent]))
+        for rec in w.escaped:
+            if not rec[0].startswith("net."):
+                w.flag("no-exception", "%s@%s" % (rec[2], rec[4]), "%s escaped %s: %s" % (rec[2], rec[0], rec[3]))
+
+    def fin_order(w):
+        out = []
+        for ci in (0, 1):
+            if w.dil_rx[ci] != w.dil_sent[1 - ci]:
+                out.append(dict(oracle="dilate-order", sig="c%d:incomplete" % ci,
+                                msg="quiescent: client %d's Dilator received %d of the %d dilate messages the peer sent" % (
+                                    ci, len(w.dil_rx[ci]), len(w.dil_sent[1 - ci]))))
+        return out
+    q = tier == "quick"
+    cl = [dict(threads=[[("set_code", CODE), ("dilate",)]], dilation=True, mode="deferred", drops=1 if not q else 0),
+          dict(threads=[[("set_code", CODE), ("dilate",)]], dilation=True, mode="deferred", drops=0)]
+    cfgd = dict(clients=cl, net=True, explored=("down", "up", "api", "connect", "reorder", "dup", "drop"), coarse=[1], reorder=2, dup=0 if q else 1,
+                monitors=[mon_order], final_monitors=[fin_order], post_init=post, extra_state=lambda w: (w.dil_sent, w.dil_rx))
+    return [mk1("boss-reorder-buffer-dilate-N", cfgd, max_depth=200, max_states=150000 if q else 3000000)]
+
+
 def run(chk):
     chk.assumptions += [
-        "the mailbox is two FIFO queues (one per sender) of dilate-N plaintexts; the Boss reorder buffer in front of it is exercised in C17's stacked world",
+        "in the W3 scenarios the mailbox is two FIFO queues (one per sender) of dilate-N plaintexts; the Boss reorder buffer in front of the "
+        "Dilator is exercised by the stacked scenario boss-reorder-buffer-dilate-N (real mailbox server, reordered and duplicated message events)",
         "faults: the connection in use may be lost (each end notices separately); a candidate may be lost only while a younger healthy candidate exists; "
         "connection attempts are not refused (the property presupposes that one attempt of the new generation completes)",
         "timers (ping monitor, relay delay) are not explored here: C16 covers the monitor",
     ]
-    for sc in scenarios(chk.tier):
+    for sc in scenarios(chk.tier) + stacked_scenarios(chk.tier):
         if getattr(chk, "only", None) and chk.only not in sc.name:
             continue
         res = explore(sc, log=chk.log if os.environ.get("VERIF_VERBOSE") else None)
@@ -127,6 +183,10 @@ def run(chk):
 
 
 def replay(body):
+    for sc in stacked_scenarios(body.get("tier", "quick")):
+        if sc.name == body["scenario"]:
+            from .w1common import replay as _r
+            return _r(body, [sc])
     for sc in scenarios(body.get("tier", "quick")):
         if sc.name == body["scenario"]:
             w, v = run_linear(sc.factory, [tuple(e) for e in body["events"]])
